@@ -111,7 +111,8 @@ package internal
 //@   ensures  enc: EncView(result) == EncOf(config)
 
 //@ func (tlsConfigEncoder).hash
-//@   modifies ghost Bld, ghost HashIn, above(watermark())
+//@   #allocates
+//@   modifies ghost HashIn
 //@   ensures  id: result == PoolID(EncView(c))
 
 // json.Marshal of the four settings (trusted: encoding/json)
@@ -129,7 +130,7 @@ package internal
 //@   requires wf: p != nil && p.log != nil && p.configs != nil && p.caWatcher != nil && config != nil && !held(addr(p.mu))
 //@   requires pool: TlsPoolInv(p)
 //@   uses L-hashbuf-injective
-//@   modifies mapof(p.configs), ghost PoolAdded, ghost Bld, ghost HashIn, ghost $held[addr(p.mu)], above(watermark())
+//@   modifies mapof(p.configs), ghost PoolAdded, ghost HashIn, ghost $held[addr(p.mu)], above(watermark())
 //@   ensures  none: TlsCA(config) == "" && TlsCAFile(config) == "" && TlsSkip(config) == nil ==> result0 == nil && result1 == nil
 //@   ensures  err_nil: result1 != nil ==> result0 == nil
 //@   ensures  trust: result1 == nil && result0 != nil ==> TrustFor(result0, EncOf(config))
@@ -146,3 +147,19 @@ package internal
 //@   ensures  only_id: forall x string :: mapHas(p.configs, x) == mapHas(old(p.configs), x) && p.configs[x] == old(p.configs)[x] && (x != id && mapHas(p.configs, x) ==> p.configs[x].RootCAs == old(p.configs[x].RootCAs))
 //@   ensures  updated: mapHas(p.configs, id) ==> p.configs[id].RootCAs == old(p.configs[id].RootCAs) || (p.configs[id].RootCAs != nil && fresh(p.configs[id].RootCAs) && PemOK(string_of_bytes(caPem)) && PoolAdded[p.configs[id].RootCAs] == string_of_bytes(caPem))
 //@   ensures  unlocked: !held(addr(p.mu))
+
+// TLSConfigPool as its clients (the HTTP client factory) see it
+//@ interface TLSConfigPool method LoadTLSConfig(self, config) (c, err)
+//@   requires nonnil: config != nil
+//@   uses L-hashbuf-injective
+//@   modifies ghost PoolAdded, ghost HashIn
+//@   ensures  none: TlsCA(config) == "" && TlsCAFile(config) == "" && TlsSkip(config) == nil ==> c == nil && err == nil
+//@   ensures  err_nil: err != nil ==> c == nil
+//@   ensures  trust: err == nil && c != nil ==> TrustFor(c, EncOf(config))
+//@   ensures  some: err == nil && !(TlsCA(config) == "" && TlsCAFile(config) == "" && TlsSkip(config) == nil) ==> c != nil
+
+//@ impl (*tlsConfigPool) TLSConfigPool (p, k)
+//@   requires wf: p != nil && p.log != nil && p.configs != nil && p.caWatcher != nil && !held(addr(p.mu))
+//@   invariant src: TlsPoolSrc(p)
+//@   invariant distinct: TlsPoolDistinct(p)
+//@   private mapof(p.configs), ghost $held[addr(p.mu)], above(watermark())
